@@ -124,6 +124,19 @@ CLAIMED.update({
     },
 })
 
+CLAIMED.update({
+    "C17": {
+        "technique": "static analysis: exhaustive path enumeration over MIR; symbolic counter-delta balance per path; sibling agreement of trait impls; impl/constructor census from the type-checked program",
+        "level": ("Static, all paths: every MemoryReservation method changes `size` by exactly the amount it passes to the pool (error "
+                  "paths commit nothing; split moves size into the new reservation); each of the 5 MemoryPool impls adds exactly "
+                  "`additional` / subtracts exactly `shrink` on the counters reserved() reads, try_grow charges on the Ok path only and "
+                  "finite pools can reject; wrapper pools delegate exactly once with the same operands and track only after success; "
+                  "Drop reaches free/unregister; MemoryReservation is not Clone/Copy, has private fields and three constructors. "
+                  "Necessary for reserved() == sum of live reservations; the concurrent clauses (peaks under interleaving, fair-share "
+                  "arithmetic) are not decided."),
+    },
+})
+
 NA = {
     'C01': 'whole-pipeline value semantics over all queries x all table contents: functional verification, no clause visible in code shape beyond C03/C05/C47',
     'C08': 'ordering/permutation of runtime values (loser tree, cursors, heaps are value algorithms); no structural clause',
